@@ -20,7 +20,10 @@ TRUSTED = ["Lean 4 kernel; axioms per theorem under coverage.axioms",
            "hold, drop); crypto labels (share on polynomial, t-subset signatures) computed with the real kyber tbls/share primitives",
            "C16 (time model) and C17 (group-hash preimage) are reused; BLAKE2b-256 via python hashlib for the epoch-1 seed comparison",
            "the node's own time.Now() at completion is not observable: the model's transition time is compared for every clock reading in the observed completion window"]
-ASSUMPTIONS = ["participants have pairwise distinct public keys", "period is a whole number of seconds >= 1; times within the C16 no-wrap domain"]
+ASSUMPTIONS = ["synchrony of kyber's DKG: every bundle reaches every node within the phase (TimeBetweenDKGPhases); the harness measures delivery and scheduling lag per "
+               "epoch and discards (counts, does not judge) runs in which the machine was too loaded to meet it — nodes then really do complete with different groups, "
+               "which is the documented limit of echoBroadcast and the reason the claim is partial",
+               "participants have pairwise distinct public keys", "period is a whole number of seconds >= 1; times within the C16 no-wrap domain"]
 
 
 def schedules(rng):
@@ -33,7 +36,7 @@ def gen_scripts(ctx, tier):
     seed = ctx["seed"]
     unch = D.SCHEMES[1 + (seed % 4)]
     scripts = []
-    phase, kick = 3000, 450
+    phase, kick = 15000, 450
 
     def net(sch, n, tag, ph=phase):
         return D.net_line(sch, n, "default" if rng.chance(1, 2) else f"net{tag}", ph, kick, rng.next() % 10**9)
@@ -81,10 +84,10 @@ def gen_scripts(ctx, tier):
     o = r.shuffle([0, 1, 2])
     late = r.choice(o)
     scripts.append(("E-round-boundary", [net(D.CHAINED, 3, "e"),
-                    D.initial_line(o, 2, o[0], period=1, genesis=-r.range(20, 300)),
-                    D.reshare_line(r.shuffle(o), [], [], 2, r.choice(o), sched="hold=-400"),
-                    D.reshare_line(r.shuffle(o), [], [], 2, r.choice(o), sched="hold=120"),
-                    D.reshare_line(r.shuffle(o), [], [], 2, r.choice(o), sched=f"hold=-400/holdx={late}:150")]))
+                    D.initial_line(o, 2, o[0], period=2, genesis=-2 * r.range(10, 150)),
+                    D.reshare_line(r.shuffle(o), [], [], 2, r.choice(o), sched="hold=-900"),
+                    D.reshare_line(r.shuffle(o), [], [], 2, r.choice(o), sched="hold=250"),
+                    D.reshare_line(r.shuffle(o), [], [], 2, r.choice(o), sched=f"hold=-900/holdx={late}:400")]))
     # F: one node, kickoff placed just before / just after a boundary: the tail of startDKGExecution at chosen instants
     r = rng.fork("F")
     scripts.append(("F-single-node-instants", [net(unch, 1, "f"),
@@ -111,10 +114,10 @@ def gen_scripts(ctx, tier):
         first, extra = o[:n - 1], o[n - 1]
         gone = r.choice(first[1:])
         lines = [net(r.choice(D.SCHEMES), n, f"x{k}"),
-                 D.initial_line(first, (n - 1) // 2 + 1, first[0], period=r.choice([1, 2, 30]), genesis=-r.range(10, 9000), sched=sched(r, first), subsets=20),
+                 D.initial_line(first, (n - 1) // 2 + 1, first[0], period=r.choice([2, 3, 30]), genesis=-r.range(10, 9000), sched=sched(r, first), subsets=20),
                  D.reshare_line(r.shuffle([x for x in first if x != gone]), [extra], [gone], r.choice(D.thresholds(n - 1)), first[0], sched=sched(r, o), subsets=20),
                  D.reshare_line(r.shuffle([x for x in o if x != gone]), [], [], r.choice(D.thresholds(n - 1)), first[0],
-                                sched=r.choice(["hold=-400", "hold=150", f"hold=-400/holdx={first[0]}:150"]), subsets=20)]
+                                sched=r.choice(["hold=-900", "hold=250", f"hold=-900/holdx={first[0]}:400"]) if True else None, subsets=20)]
         scripts.append((f"X-replace-{k}", lines))
     for k in range(4):
         r = rng.fork(f"Y{k}")
@@ -151,6 +154,10 @@ def explore(ctx, res):
                 continue
             if r.get("op") not in ("initial", "reshare"):
                 continue
+            if not D.synchronous(r):
+                # the machine was too loaded for kyber's synchrony assumption (bundles within the phase): no verdict from this script
+                dist["epochs_discarded_unsynchronised"] = dist.get("epochs_discarded_unsynchronised", 0) + 1
+                break
             evals += 1
             dist["epochs_attempted"] += 1
             comp = D.completed(r)
